@@ -22,9 +22,10 @@ def signature(why):
     w = [re.sub(r"\d+", "", x) for x in why]
     if not w:
         return "unknown"
-    if w[0].startswith(("Op:", "Content:", "Dir:", "Call:", "Panic")):
-        return w[0]
-    return "Inv:" + "+".join(w)
+    inv = [x for x in w if not x.startswith(("Op:", "Content:", "Dir:", "Call:", "Panic"))]
+    if inv:
+        return "Inv:" + "+".join(inv)
+    return w[0]
 
 
 def run(ctx):
